@@ -22,8 +22,9 @@ INNER = [
     'SELECT a, b FROM #u',
     'SELECT b AS a, a AS b FROM #t',
     'SELECT a AS meta, b AS entry, c AS id FROM #t',          # output names that are special on ledger tables are ordinary here
+    'SELECT b FROM #t', 'SELECT a, b FROM #t WHERE a IS NOT NULL ORDER BY b',      # duplicate rows reach the outer query
 ]
-OUTER = ['*', '{0}', '{0}, {1}', '{1}, {0}', 'count(*)', '{0}, count(*)', '{0} ORDERBY', '{0} WHERE', '{0} ORDERBY1', '{0} ORDERBY1 LIMIT']
+OUTER = ['*', '{0}', '{0}, {1}', '{1}, {0}', 'count(*)', '{0}, count(*)', '{0} ORDERBY', '{0} WHERE', '{0} ORDERBY1', '{0} ORDERBY1 LIMIT', 'DISTINCT *', 'DISTINCT {0}', '* LIMIT']
 
 
 def conn():
@@ -34,6 +35,8 @@ def outer_query(form, names, src):
     n0 = names[0]
     n1 = names[1] if len(names) > 1 else names[0]
     if form == '*': return f'SELECT * FROM {src}'
+    if form == 'DISTINCT *': return f'SELECT DISTINCT * FROM {src}'       # the outer query is a query of its own: its DISTINCT / LIMIT apply to the rows of q
+    if form == '* LIMIT': return f'SELECT * FROM {src} LIMIT 2'
     if form == '{0} ORDERBY': return f'SELECT {n0} FROM {src} ORDER BY {n1} DESC, {n0}'
     # one sort key with ties: rows that tie keep the order the subquery delivered them in (the sort is stable)
     if form == '{0} ORDERBY1': return f'SELECT {n0}, {n1} FROM {src} ORDER BY {n0}'
@@ -148,6 +151,24 @@ def special(res):
     exp = ([d.name for d in inner.description], inner.fetchall()[:2])
     if got != exp:
         res.violation('h08:star-over-duplicate-names', 'SELECT * FROM (q) returns q rows and description unchanged (duplicate output names)', {'query': q}, got, exp)
+    # several subqueries in one statement are evaluated each for itself, also when their text is the same: placeholders bound to
+    # different values, the same text at different nesting depths
+    for q, params, lit in [
+            ('SELECT a FROM #t WHERE a IN (SELECT a FROM #t WHERE a > %s) AND a NOT IN (SELECT a FROM #t WHERE a > %s)', (1, 3),
+             'SELECT a FROM #t WHERE a IN (SELECT a FROM #t WHERE a > 1) AND a NOT IN (SELECT a FROM #t WHERE a > 3)'),
+            ('SELECT a, a IN (SELECT a FROM #u WHERE a < %s), a IN (SELECT a FROM #u WHERE a < %s) FROM #t', (2, 100),
+             'SELECT a, a IN (SELECT a FROM #u WHERE a < 2), a IN (SELECT a FROM #u WHERE a < 100) FROM #t'),
+            ('SELECT a FROM #t WHERE a IN (SELECT a FROM #u WHERE a >= %s) OR a IN (SELECT a FROM #u WHERE a >= %s)', (1000, 0),
+             'SELECT a FROM #t WHERE a IN (SELECT a FROM #u WHERE a >= 1000) OR a IN (SELECT a FROM #u WHERE a >= 0)')]:
+        res.case(q, {'query': q})
+        try:
+            got = c.execute(q, params).fetchall()
+        except Exception as e:
+            got = f'{type(e).__name__}: {e}'
+        exp = c.execute(lit).fetchall()
+        if got != exp:
+            res.violation('h08:twin-subqueries:' + q[:60], 'every IN subquery of a statement is evaluated for itself (same text, different parameters)', {'query': q, 'params': list(params)},
+                          got if isinstance(got, str) else got[:4], exp[:4])
     for q in ['SELECT a FROM #t WHERE a IN (SELECT a, b FROM #u)', 'SELECT a IN (SELECT * FROM #u) FROM #t']:
         res.case(q, {'query': q})
         try:
